@@ -116,7 +116,7 @@ func VerifC15EndBlocker() {
 	a := sdk.AccAddress([]byte{0xa1, 1, 1, 1, 1, 1, 1, 1, 1, 1, 1, 1, 1, 1, 1, 1, 1, 1, 1, 1})
 	b := sdk.AccAddress([]byte{0xb2, 2, 2, 2, 2, 2, 2, 2, 2, 2, 2, 2, 2, 2, 2, 2, 2, 2, 2, 2})
 	val := sdk.ValAddress([]byte{0x71, 1, 1, 1, 1, 1, 1, 1, 1, 1, 1, 1, 1, 1, 1, 1, 1, 1, 1, 1})
-	voterShares := []int64{0, 30, 60}[rt.Choose("voterShares", 3)]
+	voterShares := []int64{0, 30, 60, 39, 40, 100}[rt.Choose("voterShares", rt.Bound("voterShareChoices", 3, 6))]
 	sk := verifStaking{val: val, voter: b, voterShares: voterShares}
 	storeKey := models.NewStoreKey("gov")
 	cdc := models.NewFullCodec(func(reg codectypes.InterfaceRegistry) {
@@ -146,14 +146,18 @@ func VerifC15EndBlocker() {
 	// proposal 2: voting, two messages of one type
 	e1 := verifAmount("p2.deposit.A")
 	p2End := ends[rt.Choose("p2.votingEnd", 3)]
-	secondFails := rt.Bool("p2.secondMessageFails")
+	failing := rt.Choose("p2.failingMessage", 3) // none, the first, the second
+	anyFails := failing != 0
+	m1 := &types.MsgUpdateSwitchParams{Authority: verifAuthority}
 	m2 := &types.MsgUpdateSwitchParams{Authority: verifAuthority, Params: types.SwitchParams{DisableMsgTypes: []string{"/x"}}}
-	if secondFails {
+	if failing == 1 {
+		m1.Params.DisablePrecompiles = []string{"fail"}
+	} else if failing == 2 {
 		m2.Params.DisablePrecompiles = []string{"fail"}
 	}
 	start := now.Add(-50 * time.Hour)
 	p2 := govv1.Proposal{Id: 2, Status: govv1.StatusVotingPeriod, TotalDeposit: sdk.NewCoins(sdk.NewCoin(denom, e1)), SubmitTime: &submit, DepositEndTime: &submit, VotingStartTime: &start, VotingEndTime: &p2End,
-		Title: "t", Summary: "s", Proposer: a.String(), Messages: []*codectypes.Any{verifAny(&types.MsgUpdateSwitchParams{Authority: verifAuthority}), verifAny(m2)}}
+		Title: "t", Summary: "s", Proposer: a.String(), Messages: []*codectypes.Any{verifAny(m1), verifAny(m2)}}
 	vote := []govv1.VoteOption{govv1.OptionYes, govv1.OptionNo, govv1.OptionNoWithVeto}[rt.Choose("vote", 3)]
 	if k.SetProposal(ctx, p1) != nil || k.SetProposal(ctx, p2) != nil ||
 		k.SetDeposit(ctx, govv1.NewDeposit(1, a, sdk.NewCoins(sdk.NewCoin(denom, d1)))) != nil || k.SetDeposit(ctx, govv1.NewDeposit(1, b, sdk.NewCoins(sdk.NewCoin(denom, d2)))) != nil ||
@@ -219,7 +223,7 @@ func VerifC15EndBlocker() {
 		rt.Assert(got2.Status == govv1.StatusVotingPeriod && !marker0 && !marker1, "a proposal whose voting period has not ended is untouched")
 	} else if passes {
 		rt.Cover("passed")
-		if secondFails {
+		if anyFails {
 			rt.Assert(got2.Status == govv1.StatusFailed && !marker0 && !marker1, "a passed proposal one of whose messages fails leaves no effect of any of its messages")
 		} else {
 			rt.Assert(got2.Status == govv1.StatusPassed && marker0 && marker1, "all messages of a passed proposal take effect")
